@@ -525,7 +525,7 @@ class BasicContiguousVector<cntgs::Options<Option...>, Parameter...>
 
     void copy_assign(const BasicContiguousVector& other)
     {
-        destruct();
+        clear();
         memory_ = other.memory_;
         ElementLocatorAndFixedSizes other_locator{other.locator_, other.memory_begin(),     other.max_element_count_,
                                                   memory_begin(), other.max_element_count_, get_allocator()};
